@@ -11,7 +11,7 @@
      restrictions a           Selector.LabelRestrictions();  satisfies R L = the label map L meets every restriction. *)
 From Coq Require Import List NArith Bool Permutation.
 From Verif.Common Require Import Labels.
-From Verif.C07 Require Import Model Spec MapLemmas AltProofs IdxProofs LiveProofs StepProofs RestrProofs CandProofs Proofs.
+From Verif.C07 Require Import Model Spec MapLemmas AltProofs IdxProofs LiveProofs StepProofs RestrProofs CandProofs OrderProofs IterProofs Proofs.
 Import ListNotations.
 Open Scope N_scope.
 
@@ -82,6 +82,35 @@ Example c07_candidates_example :
               RiAdd 4 (SAnd [SEq [97] [120]; SNot (SHas [97])])] in
   nsort (ri_candidates (fold_left ri_step ops ri_empty) [([97], [120])]) = [1; 3].
 Proof. vm_compute. reflexivity. Qed.
+
+(* iterEndpointCandidates (SelectorAndNamedPortIndex), the step that actually prunes with the restriction
+   summaries: endpoints are indexed by their OWN labels, parents by theirs (both reached by arbitrary Add/Remove
+   histories), `kids` is parent -> endpointIDs.  If endpoint e (own labels L, parents ps, each indexed parent listing
+   e) satisfies the selector on its effective labels, e is among the candidates - for EVERY iteration order R' of
+   the restriction map and EVERY parent-scan estimate function. *)
+Theorem c07_iter_candidates_superset :
+  forall (pest : np -> list N -> nat) opsE opsP kids e L ps a R',
+  let x := {| np_eps := fold_left nv_step opsE nv_empty; np_pars := fold_left nv_step opsP nv_empty; np_children := kids |} in
+  nlookup e (nv_items (np_eps x)) = Some L ->
+  (forall p, In p ps -> nlookup p (nv_items (np_pars x)) <> None -> In e (np_kids x p)) ->
+  Permutation (restrictions a) R' ->
+  eval a (effective L (map (fun p => odflt [] (nlookup p (nv_items (np_pars x)))) ps)) = true ->
+  In e (iter_candidates pest x R').
+Proof. exact iter_candidates_superset. Qed.
+Print Assumptions c07_iter_candidates_superset.
+
+(* findMostRestrictedLabel ranges over the Go map behind LabelRestrictions(): whatever the iteration order (any
+   permutation R' of the restriction map), the selector is filed the same way - so DeleteSelector undoes exactly
+   what AddSelector did. *)
+Theorem c07_filing_order_free : forall a R', Permutation (restrictions a) R' -> classify_restr R' = classify a.
+Proof. exact classify_order_free. Qed.
+Print Assumptions c07_filing_order_free.
+
+(* The restriction oracle of Spec.v accepts the model on every selector and every list of label maps. *)
+Theorem c07_restr_model_meets_spec : forall a maps,
+  snd (check_case (CRestr a (restrictions a) maps (map (eval a) maps))) = true.
+Proof. exact restr_model_meets_spec. Qed.
+Print Assumptions c07_restr_model_meets_spec.
 
 (* The executable stand-in for Selector.Equal used in the correspondence run meets the hypothesis above. *)
 Theorem c07_ast_eqb_sound : forall a b, ast_eqb a b = true -> forall L, eval a L = eval b L.
